@@ -70,26 +70,31 @@ def inval(kind, nm, model):
     if kind == 'l': return (model.get(nm + 'h', 0) << 32) | model.get(nm + 'l', 0)
     return model.get(nm, 0)
 
-def native_run(ctx, cfg, fn, spec, n, lanes_in):
-    """lanes_in: {name: [n ints]} -> list of output vectors"""
-    bufs = []; outs = []
+def native_run(ctx, cfg, fn, spec, n, lanes_in, alias=None):
+    """lanes_in: {name: [n ints]} -> list of output vectors.  alias = (output index, input name): that output register IS the input register"""
+    bufs = []; outs = []; inb = {}
     for r in spec['args']:
-        if r == 'o': b = kern.u64buf([0] * n); outs.append(b)
-        else: b = kern.u64buf(lanes_in[r])
+        if r != 'o': inb[r] = kern.u64buf(lanes_in[r])
+    for r in spec['args']:
+        if r == 'o':
+            b = inb[alias[1]] if (alias and alias[0] == len(outs)) else kern.u64buf([0] * n); outs.append(b)
+        else: b = inb[r]
         bufs.append(b)
     f = core.nfn(ctx.bdir, cfg, fn)
     if f is None: return None
     f(*[ctypes.byref(b) for b in bufs])
     return [list(o) for o in outs]
 
-def ob_kernel(ctx, cfg, mods, name, spec, n):
+def ob_kernel(ctx, cfg, mods, name, spec, n, alias=None):
     fn = find(ctx, cfg, name, spec, n)
     ins = {nm: [mkinput(k, '%s%d' % (nm, i)) for i in range(n)] for nm, k in spec['inputs'].items()}
+    ALIAS[0] = alias
     def mk(w):
-        objs = []; outs = []
+        objs = []; outs = []; ino = {r: core.obj_words(r, list(ins[r]), 8 * n) for r in spec['args'] if r != 'o'}
         for r in spec['args']:
-            if r == 'o': o = Obj(8 * n, 'out%d' % len(outs), 8 * n); outs.append(o)
-            else: o = core.obj_words(r, list(ins[r]), 8 * n)
+            if r == 'o':
+                o = ino[alias[1]] if (alias and alias[0] == len(outs)) else Obj(8 * n, 'out%d' % len(outs), 8 * n); outs.append(o)
+            else: o = ino[r]
             objs.append(o)
         return [Ptr(o, 0) for o in objs], (lambda ret: [core.words(o) for o in outs])
     paths = kern.run_kernel(ctx, cfg, mods, fn, mk)
@@ -112,25 +117,29 @@ def ob_kernel(ctx, cfg, mods, name, spec, n):
     if r[0] == 'event': return viol('%s/event' % name, 'path ends in %s: %s' % (r[1], r[2]), replay=dict(kernel=name, event=str(r[2])))
     return inconc(str(r[1]))
 
-def confirm(ctx, cfg, name, fn, spec, n, lanes, label):
-    outs = native_run(ctx, cfg, fn, spec, n, lanes)
+ALIAS = [None]
+def confirm(ctx, cfg, name, fn, spec, n, lanes, label, alias='current'):
+    alias = ALIAS[0] if alias == 'current' else alias
+    outs = native_run(ctx, cfg, fn, spec, n, lanes, alias)
     if outs is None:   # no AVX512 on this CPU: replay in the interpreter's concrete mode
-        outs = interp_run(ctx, cfg, fn, spec, n, lanes); how = 'interpreter (no native AVX512)'
+        outs = interp_run(ctx, cfg, fn, spec, n, lanes, alias=alias); how = 'interpreter (no native AVX512)'
     else: how = 'native'
     badl = [i for i in range(n) if (not spec['pre'] or spec['pre'](Py({k: v[i] for k, v in lanes.items()}, None))) and not spec['goal'](Py({k: v[i] for k, v in lanes.items()}, [o[i] for o in outs]))]
-    rep = dict(kernel=name, cfg=cfg, fn=fn, n=n, lanes=lanes, outs=outs, how=how)
+    rep = dict(kernel=name, cfg=cfg, fn=fn, n=n, lanes=lanes, outs=outs, how=how, alias=list(alias) if alias else None)
+    if alias: name = '%s [output %d is operand %s]' % (name, alias[0], alias[1])
     if badl:
         i = badl[0]
         return viol(name, 'Goldilocks::%s lane %d: inputs %s -> outputs %s (%s) violate the lane specification%s' % (name, i, {k: hex(v[i]) for k, v in lanes.items()}, [hex(o[i]) for o in outs], how, (' [assumption: %s]' % spec['doc']) if spec['doc'] else ''), replay=rep)
     return inconc('ENCODING-MISMATCH: solver model for %s %s does not reproduce (%s): %s' % (name, label, how, lanes))
 
-def interp_run(ctx, cfg, fn, spec, n, lanes, mods=None):
+def interp_run(ctx, cfg, fn, spec, n, lanes, mods=None, alias=None):
     mods = mods or MODS[cfg]
     w = core.world(ctx.bdir, mods); w.reset(); w.hooks = dict(w.base_hooks); it = Interp(w)
-    objs = []; outs = []
+    objs = []; outs = []; ino = {r: core.obj_words(r, list(lanes[r]), 8 * n) for r in spec['args'] if r != 'o'}
     for r in spec['args']:
-        if r == 'o': o = Obj(8 * n, 'out', 8 * n); outs.append(o)
-        else: o = core.obj_words(r, list(lanes[r]), 8 * n)
+        if r == 'o':
+            o = ino[alias[1]] if (alias and alias[0] == len(outs)) else Obj(8 * n, 'out', 8 * n); outs.append(o)
+        else: o = ino[r]
         objs.append(o)
     it.call(fn, [Ptr(o, 0) for o in objs])
     return [core.words(o) for o in outs]
@@ -138,8 +147,15 @@ def interp_run(ctx, cfg, fn, spec, n, lanes, mods=None):
 MODS = {'avx2': ['cen_avx2', 'gbf_avx2'], 'avx512': ['cen_avx512', 'gbf_avx512']}
 
 def obligations(ctx, cfg, n):
-    T = table(n == 8)
-    return [Ob(name, ob_kernel, (cfg, MODS[cfg], name, spec, n)) for name, spec in T.items()]
+    T = table(n == 8); obs = []
+    for name, spec in T.items():
+        obs.append(Ob(name, ob_kernel, (cfg, MODS[cfg], name, spec, n)))
+        # in-place uses: an output register that is also an operand register (add_avx(x, x, y), mult_avx_128(h, l, h, b), ...)
+        nout = sum(1 for r in spec['args'] if r == 'o')
+        for oi in range(nout):
+            for inm in spec['inputs']:
+                obs.append(Ob('%s/out%d=%s' % (name, oi, inm), ob_kernel, (cfg, MODS[cfg], name, spec, n, (oi, inm))))
+    return obs
 
 VEC = [0, 1, 3, 9, 255, 256, P - 12, P - 1, P, P + 1, 2**32 - 1, 2**32, 2**63 - 1, 2**63, SMALL, SMALL + 1, 2**64 - 1, 0x5555555555555555, 2**31, 2**33 - 1]
 def validate(ctx, cfg, n):
@@ -159,5 +175,5 @@ def validate(ctx, cfg, n):
 def replay(ctx, d):
     if 'event' in d: return True, d['event']
     n = d['n']; T = table(n == 8); spec = T[d['kernel']]; lanes = {k: list(v) for k, v in d['lanes'].items()}
-    r = confirm(ctx, d['cfg'], d['kernel'], d['fn'], spec, n, lanes, 'replay')
+    r = confirm(ctx, d['cfg'], d['kernel'], d['fn'], spec, n, lanes, 'replay', alias=tuple(d['alias']) if d.get('alias') else None)
     return r['status'] == 'violation', r['detail']
